@@ -20,7 +20,26 @@ use std::io::{BufRead, BufWriter, Write};
 
 fn main() {
     // panics of the implementation are results, keep stderr quiet
-    std::panic::set_hook(Box::new(|_| {}));
+    std::panic::set_hook(Box::new(|info| {
+        // inside an intentional catch scope a panic of the implementation is a result; outside
+        // one (oracle mode) it is reported as a failure of the case being evaluated
+        if util::IN_CATCH.with(|c| c.get()) > 0 {
+            return;
+        }
+        let args: Vec<String> = std::env::args().collect();
+        if args.get(1).map(|s| s.as_str()) == Some("oracle") {
+            let cur = util::CURRENT.with(|c| c.borrow().clone());
+            let msg = format!("{}", info).replace('\n', " ");
+            println!(
+                "{{\"t\":\"fail\",\"prop\":{},\"clause\":\"implementation-panicked\",\"class\":null,\"replay\":{},\"detail\":{}}}",
+                util::json_str(&args[2]),
+                util::json_str(&cur),
+                util::json_str(&msg)
+            );
+            println!("{{\"t\":\"stat\",\"prop\":{},\"evaluations\":1,\"distinct_nontrivial\":0,\"dist\":{{}},\"fail_counts\":{{\"implementation-panicked|-\":1}},\"samples\":[{}]}}", util::json_str(&args[2]), util::json_str(&cur));
+            std::process::exit(0);
+        }
+    }));
     let args: Vec<String> = std::env::args().collect();
     let out = std::io::stdout();
     let mut out = BufWriter::with_capacity(1 << 20, out.lock());
